@@ -45,7 +45,7 @@ theorem window_inv (env : Env) (hp : 0 < env.cfg.page) (hH : env.cfg.fixH = true
     (hF : env.cfg.fixF = true) (G : NumKind → Grammar) (hG : ∀ k, GrammarOK (G k)) :
     (∀ mb b, Inv env (init env mb b) ∧ (init env mb b).offset = 0) ∧
     (∀ op st, Inv env st → Inv env (runOp env G op st).2) :=
-  ⟨fun mb b => init_spec env mb b hp ⟨hH, hF⟩, fun op st h => (op_transparent_aux env G hG ⟨hH, hF⟩ hI op st h).2.2⟩
+  ⟨fun mb b => init_spec env mb b hp ⟨hH, hF⟩, fun op st h => (op_transparent_aux env G (fun _ _ => True) hG ⟨hH, hF⟩ hI op st h (fun _ _ _ => trivial)).2.2⟩
 
 /-- what `Inv` says, spelled out -/
 theorem window_inv_meaning (env : Env) (st : St) (h : Inv env st) :
@@ -66,7 +66,7 @@ theorem op_transparent (env : Env) (G : NumKind → Grammar) (hG : ∀ k, Gramma
     canon op (runOp env G op st).1 = (specOp G op (env.bytes.drop st.offset)).1 ∧
     (runOp env G op st).2.offset = st.offset + (specOp G op (env.bytes.drop st.offset)).2 ∧
     Inv env (runOp env G op st).2 :=
-  op_transparent_aux env G hG ⟨hH, hF⟩ hI op st h
+  op_transparent_aux env G (fun _ _ => True) hG ⟨hH, hF⟩ hI op st h (fun _ _ _ => trivial)
 
 /-- **transcript_fn**: the transcript (results and offsets) of any operation sequence is the spec transcript
 of the bytes — hence identical for any two executions over the same bytes, whatever their chunk oracles,
@@ -79,8 +79,36 @@ theorem transcript_fn (env₁ env₂ : Env) (hb : env₁.bytes = env₂.bytes)
     transcript env₁ G ops (init env₁ mb₁ b₁) = transcript env₂ G ops (init env₂ mb₂ b₂) := by
   obtain ⟨i1, o1⟩ := init_spec env₁ mb₁ b₁ hp₁ ⟨hH₁, hF₁⟩
   obtain ⟨i2, o2⟩ := init_spec env₂ mb₂ b₂ hp₂ ⟨hH₂, hF₂⟩
-  have t1 := transcript_spec env₁ G hG ⟨hH₁, hF₁⟩ hI₁ ops _ i1
-  have t2 := transcript_spec env₂ G hG ⟨hH₂, hF₂⟩ hI₂ ops _ i2
+  have t1 := transcript_spec env₁ G (fun _ _ => True) hG ⟨hH₁, hF₁⟩ hI₁ ops _ i1 (goodScript_of_all G _ ops _)
+  have t2 := transcript_spec env₂ G (fun _ _ => True) hG ⟨hH₂, hF₂⟩ hI₂ ops _ i2 (goodScript_of_all G _ ops _)
+  rw [o1] at t1; rw [o2] at t2
+  exact ⟨t1, by rw [t1, t2, hb]⟩
+
+/-- **op_transparent / transcript_fn relative to a set of good tokens**: the same two theorems when the grammar
+is only known to be a function of the token on tokens satisfying `Good` (for kenlm's floating-point parser:
+every token but `NaN` / `nan`, theorem `concrete_grammar_ok`): they hold for every operation that is not a number
+read at a bad token, resp. for every script all of whose number reads meet good tokens (`GoodScript`, decided
+along the spec transcript, i.e. a property of the bytes and the script only). -/
+theorem op_transparent_on (env : Env) (G : NumKind → Grammar) (Good : NumKind → List Byte → Prop)
+    (hG : ∀ k, GrammarOKOn (Good k) (G k))
+    (hH : env.cfg.fixH = true) (hI : env.cfg.fixI = true) (hF : env.cfg.fixF = true) (op : Op) (st : St) (h : Inv env st)
+    (hgood : OpGood Good op (env.bytes.drop st.offset)) :
+    canon op (runOp env G op st).1 = (specOp G op (env.bytes.drop st.offset)).1 ∧
+    (runOp env G op st).2.offset = st.offset + (specOp G op (env.bytes.drop st.offset)).2 ∧
+    Inv env (runOp env G op st).2 :=
+  op_transparent_aux env G Good hG ⟨hH, hF⟩ hI op st h hgood
+
+theorem transcript_fn_on (env₁ env₂ : Env) (hb : env₁.bytes = env₂.bytes)
+    (hp₁ : 0 < env₁.cfg.page) (hH₁ : env₁.cfg.fixH = true) (hI₁ : env₁.cfg.fixI = true) (hF₁ : env₁.cfg.fixF = true)
+    (hp₂ : 0 < env₂.cfg.page) (hH₂ : env₂.cfg.fixH = true) (hI₂ : env₂.cfg.fixI = true) (hF₂ : env₂.cfg.fixF = true)
+    (G : NumKind → Grammar) (Good : NumKind → List Byte → Prop) (hG : ∀ k, GrammarOKOn (Good k) (G k))
+    (mb₁ mb₂ : Nat) (b₁ b₂ : Backend) (ops : List Op) (hgs : GoodScript Good G env₁.bytes ops 0) :
+    transcript env₁ G ops (init env₁ mb₁ b₁) = specTranscript G env₁.bytes ops 0 ∧
+    transcript env₁ G ops (init env₁ mb₁ b₁) = transcript env₂ G ops (init env₂ mb₂ b₂) := by
+  obtain ⟨i1, o1⟩ := init_spec env₁ mb₁ b₁ hp₁ ⟨hH₁, hF₁⟩
+  obtain ⟨i2, o2⟩ := init_spec env₂ mb₂ b₂ hp₂ ⟨hH₂, hF₂⟩
+  have t1 := transcript_spec env₁ G Good hG ⟨hH₁, hF₁⟩ hI₁ ops _ i1 (by rw [o1]; exact hgs)
+  have t2 := transcript_spec env₂ G Good hG ⟨hH₂, hF₂⟩ hI₂ ops _ i2 (by rw [o2, ← hb]; exact hgs)
   rw [o1] at t1; rw [o2] at t2
   exact ⟨t1, by rw [t1, t2, hb]⟩
 
@@ -271,9 +299,24 @@ theorem nan_not_prefix_determined :
   have h1 : gFloat false [78, 97, 78] = some (nanCode, 3) := by decide
   have h2 : gFloat false ([78, 97, 78] ++ 32 :: [49]) = none := by decide
   refine ⟨h1, h2, fun h => ?_⟩
-  have := h.prefix_det [78, 97, 78] 32 [49] (by decide) (by decide) (by decide)
+  have := h.prefix_det [78, 97, 78] 32 [49] (by decide) (by decide) (by decide) trivial
   rw [h1, h2] at this
   exact absurd this (by decide)
+
+/-- **the model's concrete grammars meet the grammar hypotheses**: strtol / strtoul on every token, kenlm's
+floating-point `ParseNumber` on every token except `NaN` and `nan` (on which it provably does not, see above). -/
+theorem concrete_grammar_ok : ∀ k, GrammarOKOn (goodTok k) (grammar k) := grammar_ok
+
+/-- **C18 for the concrete grammars**: over the same bytes, any two executions (any chunk oracles, buffer sizes,
+page sizes, backends, mmap failures) of a script whose `ReadFloat`/`ReadDouble` never meet a token `NaN`/`nan`
+produce the spec transcript, hence the same transcript. -/
+theorem transcript_fn_concrete (env₁ env₂ : Env) (hb : env₁.bytes = env₂.bytes)
+    (hp₁ : 0 < env₁.cfg.page) (hH₁ : env₁.cfg.fixH = true) (hI₁ : env₁.cfg.fixI = true) (hF₁ : env₁.cfg.fixF = true)
+    (hp₂ : 0 < env₂.cfg.page) (hH₂ : env₂.cfg.fixH = true) (hI₂ : env₂.cfg.fixI = true) (hF₂ : env₂.cfg.fixF = true)
+    (mb₁ mb₂ : Nat) (b₁ b₂ : Backend) (ops : List Op) (hgs : GoodScript goodTok grammar env₁.bytes ops 0) :
+    transcript env₁ grammar ops (init env₁ mb₁ b₁) = specTranscript grammar env₁.bytes ops 0 ∧
+    transcript env₁ grammar ops (init env₁ mb₁ b₁) = transcript env₂ grammar ops (init env₂ mb₂ b₂) :=
+  transcript_fn_on env₁ env₂ hb hp₁ hH₁ hI₁ hF₁ hp₂ hH₂ hI₂ hF₂ grammar goodTok grammar_ok mb₁ mb₂ b₁ b₂ ops hgs
 
 def env0 : Env := { cfg := { page := 4, fixH := true, fixI := true }, bytes := [97, 98, 32, 99, 100, 101, 102, 103, 104, 105, 106, 107, 108, 10],
                     orc := fun _ => 3 }
